@@ -8,7 +8,6 @@ import (
 	"context"
 	"fmt"
 	"go/format"
-	"io"
 	"log/slog"
 	"os"
 	"path/filepath"
@@ -113,6 +112,20 @@ func skipped(rel string) bool {
 	return false
 }
 
+// parkLog is a slog.Handler whose every record is a scheduler seam (it takes no lock, so a
+// goroutine parked inside it holds nothing). Only warnings and errors are records here.
+type parkLog struct{ k *kernel.Kernel }
+
+func (p parkLog) Enabled(_ context.Context, l slog.Level) bool { return l >= slog.LevelWarn }
+func (p parkLog) Handle(_ context.Context, r slog.Record) error {
+	if r.Level >= slog.LevelError {
+		p.k.Park("log", "error", "", nil)
+	}
+	return nil
+}
+func (p parkLog) WithAttrs([]slog.Attr) slog.Handler { return p }
+func (p parkLog) WithGroup(string) slog.Handler      { return p }
+
 type world struct {
 	rc     *kernel.RunCtx
 	k      *kernel.Kernel
@@ -137,7 +150,7 @@ func (w *world) hook() *simos.HookT {
 // runCommand executes Run under the scheduler and returns its error.
 func (w *world) runCommand(args generatecmd.Arguments, withFaults bool) (runErr error, ok bool) {
 	k, t := w.k, w.t
-	log := slog.New(slog.NewTextHandler(io.Discard, nil))
+	log := slog.New(parkLog{k})
 	g, err := generatecmd.NewGenerate(log, args)
 	if err != nil {
 		w.rc.Fail("harness", "NewGenerate: %v", err)
@@ -164,6 +177,9 @@ func (w *world) runCommand(args generatecmd.Arguments, withFaults bool) (runErr 
 		}
 		decide := func(p *kernel.Parked) kernel.Decision {
 			if !withFaults {
+				return kernel.Decision{}
+			}
+			if p.Name == "log" {
 				return kernel.Decision{}
 			}
 			rel := strings.TrimPrefix(p.Name, "fs:")
